@@ -280,11 +280,11 @@ DragCommand ==   \* interrupting := false; skipUploadCommand := true; "trz\r" to
     /\ drag' = "command" /\ interrupting' = FALSE /\ skipCmd' = TRUE
     /\ UNCHANGED <<opts, hvars, zs, dragging, logging, ovars, ivars, cvars, mvars>>
 
-DragReset ==     \* 3 s later: resetDragFiles
+DragReset ==     \* 3 s later: resetDragFiles; skipUploadCommand := false (an echo that never came is not waited for)
     /\ drag = "command"
     /\ EchoAssumed => ~skipCmd
-    /\ drag' = "idle" /\ dragging' = FALSE
-    /\ UNCHANGED <<opts, hvars, zs, interrupting, skipCmd, logging, ovars, ivars, cvars, mvars>>
+    /\ drag' = "idle" /\ dragging' = FALSE /\ skipCmd' = FALSE
+    /\ UNCHANGED <<opts, hvars, zs, interrupting, logging, ovars, ivars, cvars, mvars>>
 
 (* environment: the tty echo of the typed command (not counted against the probe budget) *)
 EchoArrives ==
